@@ -335,6 +335,31 @@ Proof.
       destruct F2 as (S2 & K2 & M2 & P2).
       change (static st1) with (static st) in S2. change (s_stack st1) with (i :: s_stack st) in K2.
       change (s_data st1) with (s_data st) in M2. change (input_data st1) with (input_data st) in P2.
+      destruct (tainted st2) eqn:Et.
+      { (* a failure occurred under this formula: the value is returned, not kept *)
+        assert (Hmiss : (if cl_cached cl then lookup_data (input_data st) i else None) = None).
+        { destruct (cl_cached cl) eqn:Ec; [|reflexivity].
+          exact (proj2 (miss_not_input st cl i HI Ec ltac:(now rewrite Ec))). }
+        assert (Hcase : (v = VNone /\ cl_allow_none cl = false /\ (r, st') = (Err KNone, rollback_frame st2 0)) \/
+                        (none_check cl v = Val v /\ (r, st') = (Val v, pop_tainted st2))).
+        { unfold none_check. destruct v; [right; split; [reflexivity|now rewrite <- H]|].
+          destruct (cl_allow_none cl); [right; split; [reflexivity|now rewrite <- H]|left; repeat split; now rewrite <- H]. }
+        destruct (rollback_frame_fields st2 0) as (RS & RD & RK & _).
+        assert (Hfr : forall s', static s' = static (rollback_frame st2 0) -> s_data s' = s_data (rollback_frame st2 0) ->
+                                 s_stack s' = s_stack (rollback_frame st2 0) -> Inv s' /\ frame st s').
+        { intros s' A B C. split; [apply (Inv_core st2 s'); [congruence|congruence|exact I2]|].
+          repeat split.
+          - congruence.
+          - rewrite C, RK, K2. reflexivity.
+          - intros j w Hl. rewrite B, RD. now apply M2.
+          - transitivity (input_data st2); [apply input_data_core; congruence|exact P2]. }
+        destruct Hcase as [(-> & Ea & H')|(Hnone & H')]; inversion H'; subst r st'; clear H'.
+        - destruct (Hfr (rollback_frame st2 0) eq_refl eq_refl eq_refl) as (A & B). split; [exact A|]. split; [exact B|].
+          right. exists (S g). simpl. unfold defs_of in *; simpl in *.
+          rewrite El, Hmiss, A2. unfold none_check. now rewrite Ea.
+        - destruct (Hfr (pop_tainted st2) eq_refl eq_refl eq_refl) as (A & B). split; [exact A|]. split; [exact B|].
+          exists (S g). simpl. unfold defs_of in *; simpl in *.
+          now rewrite El, Hmiss, A2. }
       destruct (cl_cached cl) eqn:Ec.
       * destruct (miss_not_input st cl i HI Ec ltac:(now rewrite Ec)) as (Hni & Hli).
         unfold store_value in H.
